@@ -278,7 +278,7 @@ class C14(Engine):
             "excluded / undefined), or the session shared simulator state across at least two console commands." % 0)
     assumptions = ["the reference model is written from SLAU049/SLAU144 chapter 3; cells the guides leave open are excluded, not compared: "
                    "odd PC/SP values and word accesses at odd addresses, PUSH/CALL with SP as operand, byte operations writing PC or SP, "
-                   "x(R3) or constants/immediates as destination, an auto-incremented source register that is also the destination, @PC "
+                   "x(R3) or constants/immediates as destination, flag-setting instructions with SR as destination, @PC "
                    "as source, DADD on non-BCD operands, SWPB/SXT/CALL/RETI with the byte bit set",
                    "don't-care bits: V after RRC (the two guides disagree) and after DADD (undefined), the upper byte of the stack word "
                    "written by PUSH.B, SR bits above V, R3 as a register",
